@@ -37,7 +37,7 @@ static void c06_run(vf_case *c)
     ldc *V0 = malloc(sizeof(ldc) * (size_t)(nnz + 1)), *V = malloc(sizeof(ldc) * (size_t)(nnz + 1)), *B0 = malloc(sizeof(ldc) * (size_t)n * maxrhs);
     { const NCformat *s = D.A.Store; for (int_t k = 0; k < nnz; k++) V0[k] = P->get(s->nzval, (size_t)k); }
     vf_snap idx0; snap_sparse(P, &D.A, &idx0, NULL);
-    int use_ws = sizeof(int_t) == 4 && rng_bool(r, 0.35); void *work = NULL;
+    int use_ws = rng_bool(r, 0.35); void *work = NULL;
     if (use_ws) { D.lwork = (int_t)generous_lwork(P, n, nnz); work = malloc((size_t)D.lwork); D.work = work; }
     superlu_options_t xo = o.opt; xo.PrintStat = NO; xo.Equil = rng_bool(r, 0.7) ? YES : NO;
     if (xo.ColPerm == MY_PERMC) rng_perm(r, D.perm_c, n);
